@@ -96,10 +96,18 @@ func refHistories(r *RunCtx) {
 	shared := []*SegH{{Name: "seg", Canon: cn}}
 	nreads := 2 + c.Choose(4, "ref.nreads")
 	var reads []rop
+	merges := 0
 	for len(reads) < nreads {
 		o := genRop(c, w, shared, r)
 		if o.Kind == ropMerge {
-			continue
+			// a successful merge with the held segment as its input is one more reader:
+			// it must leave the segment as readable as it found it (at most one per
+			// history, the sweeps repeat it after every reference operation)
+			if merges > 0 {
+				continue
+			}
+			merges++
+			r.count("probe.ref.merge-of-held-segment")
 		}
 		o.YieldK = 0
 		reads = append(reads, o)
@@ -243,6 +251,13 @@ func refHistories(r *RunCtx) {
 			sim.Spawn(fmt.Sprintf("holder%d", t), func(tk *Task) {
 				env := &readerEnv{xopts: &w.XOpts, yield: sim.Yield, viol: &viols[t]}
 				segs := []segment.Segment{ps}
+				// every holder merges to a path of its own
+				reads := append([]rop(nil), reads...)
+				for i := range reads {
+					if reads[i].Kind == ropMerge {
+						reads[i].Path = fmt.Sprintf("%s.holder%d", reads[i].Path, t)
+					}
+				}
 				for _, st := range plans[t].steps {
 					switch st {
 					case "AddRef":
